@@ -235,6 +235,8 @@ struct Sim {
     committed: usize,
     force_win: bool,
     force_hb_success: bool,
+    /// the live log stopped following the reference model (see check_model)
+    diverged: bool,
     crashes: Vec<u64>,
     trace: Vec<String>,
     seen: BTreeSet<String>,
@@ -279,6 +281,7 @@ impl Sim {
             committed: 0,
             force_win: false,
             force_hb_success: false,
+            diverged: false,
             crashes: Vec::new(),
             trace: Vec::new(),
             seen: BTreeSet::new(),
@@ -428,7 +431,11 @@ impl Sim {
         let n = self.node();
         let (ml, mt) = self.model_last();
         if n.log_length() as u64 > ml || n.last_log_index() != ml || n.last_log_term() != mt {
-            r.inconclusive("live log shape differs from the follower-rule model (case dropped)");
+            // no more steps for this case (the harness can no longer tell which promises a later
+            // call supersedes) — but every promise made so far came from the node's own replies,
+            // so the crash images up to here are still judged (run_case)
+            r.count("live_log_left_the_model", 1);
+            self.diverged = true;
             self.stop = true;
         }
     }
@@ -610,10 +617,24 @@ impl Sim {
                 l.push(t);
             }
         }
-        let l = self.leaders[&t].clone();
         let n = self.model_log.len();
+        // a leader whose log leaves the follower's log in the MIDDLE replaces the stale suffix in
+        // one request: conflicting entry plus further entries inside (and beyond) the old range
+        let mut deep = false;
+        {
+            let common = self.common_prefix(&self.leaders[&t]);
+            if t >= cur && common + 2 <= n && self.rng.chance(7, 10) {
+                deep = true;
+                let want = common + 2 + self.rng.below(n - common + 1); // ends inside or past the old log
+                let l = self.leaders.get_mut(&t).expect("leader");
+                while l.len() < want {
+                    l.push(t);
+                }
+            }
+        }
+        let l = self.leaders[&t].clone();
         let common = self.common_prefix(&l);
-        let next = match self.rng.below(20) {
+        let next = match if deep { 0 } else { self.rng.below(20) } {
             0..=13 => common + 1,
             14..=16 => 1 + self.rng.below(common + 1),
             _ => common + 2 + self.rng.below(2),
@@ -621,7 +642,13 @@ impl Sim {
         .min(l.len() + 1)
         .max(1);
         let prev = next - 1;
-        let k = if self.rng.chance(1, 6) { 0 } else { 1 + self.rng.below(3) };
+        let k = if deep {
+            2 + self.rng.below(4)
+        } else if self.rng.chance(1, 6) {
+            0
+        } else {
+            1 + self.rng.below(3)
+        };
         let upto = (prev + k).min(l.len());
         let entries: Vec<LogEntry> = (prev..upto).map(|i| mk_entry(i as u64 + 1, l[i])).collect();
         let ae = AppendEntries {
@@ -658,7 +685,19 @@ impl Sim {
         self.note_term(post, resp.term, "AppendEntriesResponse");
         if resp.success {
             r.count("append_success", 1);
+            // match_index = prev + carried entries: the node confirmed that its log equals the
+            // leader's up to prev (it checked prev itself, unless prev is a compacted position)
+            if resp.match_index >= prev as u64 && prev as u64 > self.base && prev <= l.len() {
+                for i in (self.base as usize + 1)..=prev {
+                    self.led.entry(post, i as u64, l[i - 1], entry_bytes(&mk_entry(i as u64, l[i - 1])), "acknowledged to a leader (covered by match_index: the node matched the leader's log up to prev)", false);
+                }
+            }
+            let old_n = self.model_log.len() as u64;
+            let mut conflicted = false;
             for e in &entries {
+                if conflicted && e.index <= old_n {
+                    r.count("entries_behind_a_conflict_inside_the_old_log_range", 1);
+                }
                 let i = e.index as usize;
                 if e.index <= self.base {
                     // a position the node has compacted behind a snapshot: it answers for the
@@ -677,6 +716,10 @@ impl Sim {
                     self.model_log.truncate(i - 1);
                     self.model_log.push(e.term);
                     r.count("conflict_truncations", 1);
+                    conflicted = true;
+                    if entries.last().map_or(false, |x| x.index > e.index) && e.index < old_n {
+                        r.count("conflict_truncations_followed_by_entries_inside_the_old_range", 1);
+                    }
                 } else {
                     r.count("entries_already_present", 1);
                 }
@@ -872,7 +915,9 @@ impl Sim {
                 r.count("proposals_accepted", 1);
                 self.trace.push(format!("propose -> Ok({}) in term {} @{}", i, term, post));
                 if i != index {
-                    r.inconclusive("propose returned an index the model did not expect (case dropped)");
+                    // the live log is not where the model has it: no further steps, images still judged
+                    r.count("live_log_left_the_model", 1);
+                    self.diverged = true;
                     self.stop = true;
                     return;
                 }
@@ -1307,6 +1352,26 @@ impl Sim {
         }
     }
 
+    /// eval_phase, also for a case whose live log left the reference model: its promises are still
+    /// the node's own, so its images are judged; only if nothing is refuted is the case reported
+    /// as inconclusive
+    fn judge(&mut self, lo: u64, r: &mut Report) {
+        if !self.diverged {
+            self.eval_phase(lo, r);
+            return;
+        }
+        if !self.seen.is_empty() {
+            return;
+        }
+        self.stop = false;
+        r.count("cases_judged_after_the_live_log_left_the_model", 1);
+        self.eval_phase(lo, r);
+        if self.seen.is_empty() {
+            r.inconclusive("live log shape differs from the follower-rule model; images judged, nothing refuted (case ended)");
+        }
+        self.stop = true;
+    }
+
     /// judge truncations of the current WAL file from byte `lo` on
     fn eval_phase(&mut self, lo: u64, r: &mut Report) {
         if self.stop {
@@ -1522,7 +1587,7 @@ fn run_case(part: Part, seed: u64, base: &Path, quick: bool, r: &mut Report) {
     let crashes = 1 + sim.rng.below(3);
     let n0 = 3 + sim.rng.below(if part == Part::Snapshot { 12 } else { 10 });
     sim.run_steps(n0, r);
-    sim.eval_phase(0, r);
+    sim.judge(0, r);
     let mut done = 0;
     for _ in 0..crashes {
         if sim.stop {
@@ -1538,7 +1603,7 @@ fn run_case(part: Part, seed: u64, base: &Path, quick: bool, r: &mut Report) {
         sim.run_steps(n, r);
         // bytes below the last record boundary <= b are unchanged and were judged in the previous phase
         let lo = sim.bounds.range(..=b).next_back().copied().unwrap_or(0);
-        sim.eval_phase(lo, r);
+        sim.judge(lo, r);
     }
     r.count(&format!("chains_with_{}_crashes_completed", done), 1);
     r.count_max("max:largest_single_allocation_bytes", common::alloc::thread_largest() as u64);
@@ -1637,7 +1702,8 @@ fn main() {
         rule: "A case = one real RaftNode::with_wal driven by a seeded hostile environment for 3-12 protocol steps (one step may be a whole leadership: win an election, replicate and commit entries, accept more, compact the log behind a snapshot, get deposed by a leader that lacks the uncommitted tail), then up to 3 times: cut the real WAL file at a chosen byte (60% inside one of the last three records, 15% anywhere, 25% between records), restart the real node on it, drive 2-8 more steps. After every phase every truncation of the (new part of the) WAL file — every byte when the part is <= 1400 (quick) / 3000 (thorough) bytes, otherwise all record/ack boundaries -2..+9 bytes, every byte of the last three records and a seeded sample — is restarted with RaftNode::with_wal and judged against the promise ledger (term, vote of the recovered term, acknowledged entries by position and bytes, log shape at ack boundaries, and a probing RequestVote from another candidate). One evaluation = one phase (one WAL file with its ledger); it is distinct by the hash of the WAL bytes and non-trivial when at least one obligation applied to some judged image and at least one judged image ended inside a record.",
         assumptions: vec![
             "crashes are process crashes: the file keeps a prefix of what had reached it (write(2) level); bytes still in a user-space buffer when a call returned are lost — that is how 'answered before the record reached the file' is observed; fsync itself is not observable here".into(),
-            "obligations come only from what the node emitted: replies of handle_message, messages it put on the transport, Ok results of propose; an entry obligation ends only when the node later answers success to an AppendEntries carrying a different-term entry at or below that index, or (snapshot part) when a snapshot install replaces the log with different entries from that index on (entries the snapshot repeats stay promised during the install's own WAL writes), cuts the log behind the snapshot, or covers what precedes its first entry; an install on a node that already holds the snapshot's last entry (same index and term) changes no promise".into(),
+            "obligations come only from what the node emitted: replies of handle_message, messages it put on the transport, Ok results of propose; an entry obligation ends only when the node later answers success to an AppendEntries carrying a different-term entry at or below that index, or (snapshot part) when a snapshot install replaces the log with different entries from that index on (entries the snapshot repeats stay promised during the install's own WAL writes), cuts the log behind the snapshot, or covers what precedes its first entry; an install on a node that already holds the snapshot's last entry (same index and term) changes no promise; a success reply also promises the leader's entries up to prev_log_index (match_index covers them: the node checked prev itself) unless prev is a compacted position".into(),
+            "when the live log stops following the reference model after a reply (last_log_index / last_log_term differ from what the Raft follower rule gives for the answered messages) the case takes no further steps, but its crash images are still judged against the promises made so far; it is reported inconclusive only if nothing is refuted".into(),
             "a restarted node holds indices (last_log_index - log_length + 1)..=last_log_index (the run of consecutive indices that ends the recovered log); a promised entry must be held there with the same bytes. Entries carried by an AppendEntries at positions the live node has compacted behind a snapshot create no promise (the node answers for the snapshot there), and promises for entries in front of an installed snapshot's first entry end with that install".into(),
             "beyond the letter of the statement, at an ack boundary (no write in flight): the restarted node's last_log_index/last_log_term equal the live node's and its first held index is <= the live node's (a prefix the live node compacted may come back from the WAL) — signature log-differs-at-ack-boundary (a truncated suffix must not reappear); and no entry it holds contradicts the live node's log at that index, the positions the live node had compacted behind an installed snapshot included (reference: the Raft follower/snapshot rules applied to the messages the node answered) — signature restarted-log-contradicts-live-log (entries superseded by a snapshot must not reappear in front of it)".into(),
             "the environment is a well-formed Raft world: one leader per term, leader logs are prefix-consistent, entry content is a function of (index, term); terms in which n0 campaigned are never given to another leader; whatever the live node regards as committed (commit_index: leader_commit of an accepted AppendEntries — never beyond the last entry that message establishes —, own majority acknowledgements, an installed snapshot) is held by every later leader; only committed entries are finalized and compacted; a leader is acknowledged by followers only while no later-term leader exists".into(),
@@ -1670,6 +1736,7 @@ fn main() {
                 ("ack_boundary_content_checks", 1_000),
                 ("log_compactions", 40),
                 ("conflict_truncations_on_a_compacted_log", 8),
+                ("conflict_truncations_followed_by_entries_inside_the_old_range", 30),
             ]
         },
         exhaustive: false,
